@@ -417,7 +417,7 @@ def main():
         if missing:
             raise ValueError("spy_on wrapper changed: missing %s" % missing[:2])
         # order: line, call, hook
-        if not (src.index(need[0]) < src.index(need[1]) < src.index(need[2])):
+        if not (src.index(need[0]) < src.rindex(need[1]) < src.index(need[2])):
             raise ValueError("spy_on wrapper: order of spy line / handler call / HOOK line changed")
         return True
     g.attempt("spyOnShape", True, spy_on_shape)
